@@ -435,10 +435,24 @@ def r5_present_implies_checked(run):
 
         def just(e, pol, absent=absent, bypass=bypass):
             return absent(e, pol) or (bypass is not None and bypass(e, pol))
+        if "verified" in fi.params():
+            # the bypass flag is the CALLER's decision: a function that rebinds
+            # it (e.g. to the result of the first check) lets later elements
+            # through unchecked
+            redefs = [d for d in cfg.rd.defs_of("verified") if d.kind != "param"]
+            run.check(not redefs, "R5", fi.qual + "::verified-is-the-callers",
+                      "`verified` is only read",
+                      "`verified` - the flag that switches the signature check "
+                      "off - is assigned inside %s: once it becomes truthy the "
+                      "remaining elements are accepted without verification" %
+                      fi.name, fi.loc(cfg.nodes[redefs[0].node].ast)
+                      if redefs else fi.loc())
         if qual.endswith("decrypt_assertions"):
             sinks = [n.id for n, c in cfg.call_nodes("append")
                      if attr_chain(c.func) == "res.append"]
-            run.require(sinks, "decrypt_assertions: res.append sink vanished")
+            if not sinks:
+                # collected first, checked afterwards: the hand-out itself
+                sinks = [cfg.return_exit]
             srcs = [n.id for n in cfg.by_kind("iter")
                     if unparse(n.ast.target) == item]
             run.require(srcs, "decrypt_assertions: loop over assertions vanished")
@@ -574,6 +588,8 @@ def r6_bypass_flags_closed(run):
             fi = m.enclosing_function(mi, c)
             if fi is not None and fi.qual == pa.qual:
                 continue
+            if fi is not None and fi.qual in getattr(m, "absorbed", ()):
+                continue       # a new helper, analysed where it was expanded
             pos = 1 if call_name(c) == "_assertion" else 3
             v = arg_of(c, pos, "verified")
             if v is not None and not is_falsy_const(v):
@@ -616,7 +632,8 @@ def r7_accept_implies_verified(run, rule="R7", only_valid_cert="F",
             for conj in cfg.cdnf(nd.id):
                 atoms |= {(canon.ctext(e), pol) for e, pol in conj
                           if canon.ctext(e) != "verified" and
-                          canon.ctext(e).isidentifier()}
+                          canon.ctext(e).isidentifier() and
+                          not canon.ctext(e).startswith("_ret__")}
         if atoms:
             key += "::via:" + ",".join(
                 "%s%s" % ("" if pol else "not ", t) for t, pol in sorted(atoms))
